@@ -563,15 +563,18 @@ impl QosPolicies {
     let ownership = match (ownership_kind, ownership_strength) {
       (Some(OwnershipKind::Shared), None) => Some(policy::Ownership::Shared),
       (Some(OwnershipKind::Shared), Some(_strength)) => {
-        warn!("QosPolicies deserializer: Received OwnershipKind::Shared and a strength value.");
-        None
+        // Some implementations send every QoS parameter. The strength has no
+        // meaning with Shared, but the kind was announced and must be compared.
+        debug!("QosPolicies deserializer: Received OwnershipKind::Shared and a strength value.");
+        Some(policy::Ownership::Shared)
       }
       (Some(OwnershipKind::Exclusive), Some(strength)) => {
         Some(policy::Ownership::Exclusive { strength })
       }
       (Some(OwnershipKind::Exclusive), None) => {
-        warn!("QosPolicies deserializer: Received OwnershipKind::Exclusive but no strength value.");
-        None
+        // OWNERSHIP_STRENGTH is a DataWriter policy: a DataReader requesting
+        // Exclusive has none to send. A missing strength is the default, zero.
+        Some(policy::Ownership::Exclusive { strength: 0 })
       }
       (None, Some(_strength)) => {
         warn!(
